@@ -332,18 +332,29 @@ def make_run(sc, tier, states=None):
             try:
                 await d.run(stop_signals=[])
             finally:
-                # whoever is still between entry and exit now was neither awaited nor cancelled by the dispatcher
-                state["running_at_end"] = sorted(str(k) for k, v in active.items() if v > 0) + \
-                    (["idle"] if idle_active[0] > 0 else [])
+                state["end_time"] = lt()
                 if kind == "rt":
                     state["limiter"].cancel()
+
+        async def outer():
+            # main() is the caller's task (the one an injected cancellation hits); this wrapper only observes
+            t = asyncio.ensure_future(main())
+            await asyncio.wait([t])
+            # a handler that was cancelled at the very end gets three loop steps to unwind (a dispatcher may cancel its
+            # handlers without awaiting them); whoever is still between entry and exit then was neither awaited nor
+            # cancelled by the dispatcher
+            for _ in range(3):
+                await asyncio.sleep(0)
+            state["running_at_end"] = sorted(str(k) for k, v in active.items() if v > 0) + \
+                (["idle"] if idle_active[0] > 0 else [])
+            return await t
 
         def on_step(loop):
             state["loop"] = loop
             if states is not None:
                 states.add(h64((len(log), inflight[0], len(state["injected"]), d.stopped)))
             k = len(state["injected"])
-            if k < len(kinds) and state["task"] is not None and loop.steps < inject_steps:
+            if k < len(kinds) and state["task"] is not None and not state["task"].done() and loop.steps < inject_steps:
                 if ch.choose(2, "inject"):
                     state["injected"].append(loop.steps)
                     if state["inj_time"] is None:
@@ -377,7 +388,7 @@ def make_run(sc, tier, states=None):
             root.setLevel(logging.DEBUG)
             logging.disable(logging.NOTSET)
         try:
-            out, exc, loop = run_on_vloop(lambda loop: main(), on_step=on_step,
+            out, exc, loop = run_on_vloop(lambda loop: outer(), on_step=on_step,
                                           horizon=5.0 if kind == "rt" else None, max_steps=20000)
         finally:
             logging.disable(logging.CRITICAL)
@@ -403,7 +414,7 @@ def make_run(sc, tier, states=None):
             out = "producer-error" if any(exc is p.exc for p in prods) else "raised:" + type(exc).__name__
         errs = [str(c.get("message"))[:50] for c in loop.errors]
         return dict(out=out, log=log, maxin=maxin[0], injected=state["injected"], steps=loop.end_steps,
-                    end_time=loop.time(), inj_time=state["inj_time"], limited=bool(state.get("limited")),
+                    end_time=state.get("end_time", loop.time()), inj_time=state["inj_time"], limited=bool(state.get("limited")),
                     counts=dict(counts), errs=errs, log_after=log_after, inject_exc=state.get("inject_exc"),
                     trigger=state["trigger"], running_at_end=state.get("running_at_end", []),
                     left={f"{w}:{h}": n for (w, h), n in sorted(left.items())})
@@ -496,6 +507,7 @@ def run_scenario(sc, tier):
         if sc[3] and "+" in sc[3] and len(r["injected"]) == 1:
             pass  # single injection of a pair scenario: also legitimate, checked with the same oracle
         res.executions += 1
+        res.extra["runs_longer_than_injection_window"] += 0
         if first and sc[3] and r["steps"] >= (150 if ("+" in sc[3] and tier == "quick") else BOUNDS[tier]["inject_steps"]):
             res.extra["runs_longer_than_injection_window"] += 1
         res.transitions += r["steps"]
